@@ -113,6 +113,9 @@ def gen_bundle(rng, bundles, depth, maxdepth, fan, counter):
     bundles[name] = {"sigs": sigs, "subs": subs, "roles": list(ROLES)}
     if rng.random() < 0.3:
         bundles[name]["roles_via"] = "unnamed"  # class-style definition with roles from h.Roles(n)
+    x = rng.random()
+    if x < 0.3:
+        bundles[name]["leaves_via"] = "mult" if x < 0.15 else "copy"  # leaves made as `n * h.Signal(...)` / by copy()
     return name
 
 
